@@ -1120,6 +1120,7 @@ func (s *BgpServer) getBestFromLocalCallbackLocked(peer *peer, rfList []bgp.Fami
 			pathList = append(pathList, paths...)
 			filtered = append(filtered, rejected...)
 		}
+		verifYield("walk", nil)
 		fn(pathList, filtered)
 		return
 	}
@@ -1146,6 +1147,7 @@ func (s *BgpServer) getBestFromLocalCallbackLocked(peer *peer, rfList []bgp.Fami
 			}
 		}
 	}
+	verifYield("walk", nil)
 	fn(pathList, filtered)
 }
 
@@ -1480,6 +1482,7 @@ func (s *BgpServer) rtcVPNCandidates(peer *peer, isWithdraw bool, rt bgp.Extende
 			}
 			paths = append(paths, p)
 		}
+		verifYield("walk", nil)
 		fn(nil, paths)
 		return
 	}
@@ -1487,7 +1490,9 @@ func (s *BgpServer) rtcVPNCandidates(peer *peer, isWithdraw bool, rt bgp.Extende
 		s.getBestFromLocalCallbackLocked(peer, fs, false, fn)
 		return
 	}
-	fn(nil, s.globalRib.GetBestPathList(peer.TableID(), 0, fs))
+	paths := s.globalRib.GetBestPathList(peer.TableID(), 0, fs)
+	verifYield("walk", nil)
+	fn(nil, paths)
 }
 
 func dstsToPaths(id string, as uint32, dsts []*table.Update) ([]*table.Path, []*table.Path, [][]*table.Path, []*table.Path, []*table.Path) {
